@@ -147,7 +147,7 @@ def kernel_part(ctx):
     return jobs
 
 
-def run(ctx):
+def _run(ctx):
     models, canaries, exports = bounds(ctx)
     ctx.cov["bounds"] = {"models": {m[0]: m[1] for m in models}, "exports": {e[0]: e[1] for e in exports},
                          "fixed_point_bits": {"time": sc.FT, "delta": sc.FD, "vector_potential": sc.FA},
@@ -255,6 +255,16 @@ def mut_kernel(t):
         return None
     t["got"][0][0] += 1
     return t
+
+
+def run(ctx):
+    """Verdicts first: a machinery problem (vacuity guard, canary) met after violations were recorded never replaces them."""
+    try:
+        _run(ctx)
+    except core.MachineryFailure as e:
+        if not ctx.violations:
+            raise
+        ctx.cov["machinery_problem_after_violations"] = str(e)[:2000]
 
 
 def replay(ctx, path):
